@@ -223,6 +223,35 @@ def receive(ck, agg, nn):
     return n
 
 
+def handed_to_queue(ck, agg):
+    """R05.7: every user frame and every fragment that is addressed to this node is handed to the queue - exactly once, whatever the queue
+    holds.  Whether there is room, whether it is a duplicate and what to do with a fragment is the queue's decision (the reassembling
+    queue must see every fragment even while the delivery list is full: it caches them)"""
+    from . import c06
+    from ..tables import rf24network as T_
+    P = ck.prog
+    nn = net.NetNode(ck, "rf24_network", "RF24Network")
+    mix = P.cls("network.mixins", "NetworkMixin")
+    f = P.method(mix, "_handle_frame_for_this_node")
+    nn.model.opaque[P.method(mix, "_write").qualname] = c07.make_summary(nn, agg, "_write")
+    S = net.structs(P)
+    for qc in ("FrameQueue", "FrameQueueFrag"):
+        nn.model.opaque[P.method(S[qc], "enqueue").qualname] = net.sum_enqueue
+    K = c06.consts(ck)
+    n = 0
+    for mtype in (0, 1, 65, 127, K["MSG_FRAG_FIRST"], K["MSG_FRAG_MORE"], K["MSG_FRAG_LAST"]):
+        for qname in ("FrameQueueFrag", "FrameQueue"):
+            n += 1
+            st, node = nn.fresh(frame_pins={"message_type": mtype}, fields={"ret_sys_msg": False}, queue=qname)
+            for out in nn.run(f, node, net.handler_args(f, mtype), st):
+                if out.kind != "return":
+                    continue
+                enq = [e for e in out.trace if e.kind == "enqueue"]
+                agg.add("R05.7", f, "a user frame / fragment for this node is handed to the queue exactly once, whatever the queue holds", len(enq) == 1,
+                        "type %d with a %s: %d enqueue() calls on a path [tests: %s]" % (mtype, qname, len(enq), sorted({ast.unparse(e.node)[:50] for e in out.trace if e.kind == "cond" and e.func is f})))
+    return n
+
+
 def run(ck):
     ck.explanation = (
         "Static analysis of the clauses of C05 visible inside one node. R05.1: every buffer passed to RF24.send() by _write_to_pipe is, by the "
@@ -267,6 +296,14 @@ def run(ck):
     # else to the parent) - a next hop computed from a field that public setters overwrite (multicast_level) lands in the wrong queue
     c04.next_hop(ck, agg, nn3)
     c04.child_window(ck, agg, nn3)
+    # "to no other node's queue": a frame whose transmission failed is flushed by the next send() because MAX_RT is still latched - the
+    # setters the network layer calls after every transmission must not clear it (R03.8, shared with C03)
+    from . import c03
+    from ..tables import contract as _ct
+    c03.run_setters(Radio(ck), agg, _ct.SETTERS)
+    # "identical bytes": the frame codec that every received frame passes through (R11.1-R11.8, shared with C11)
+    c11.header_rules(ck, agg)
+    handed_to_queue(ck, agg)
     agg.flush()
     ck.floor("R05.1", "single-frame transmissions", n1, 1)
     ck.floor("R05.2", "validation scenarios and public senders", n2, 8)
